@@ -122,8 +122,8 @@ var c14Variants = map[string][][]string{
 	"define":     {{"gene", "3..12"}, {"gene", "4..12"}, {"CDS", "3..12"}, {"-q", "note=x", "gene", "3..12"}, {"-q", "note=y", "gene", "3..12"}, {"-q", "note=x", "-q", "gene=z", "gene", "3..12"}, {"-q", "gene=z", "-q", "note=x", "gene", "3..12"}, {"-q", "note=x y", "gene", "3..12"}, {"-q", "note=x", "-q", "y", "gene", "3..12"}, {"-F", "fasta", "gene", "3..12"}},
 	"delete":     {{"3..12"}, {"3..13"}, {"-e", "3..12"}, {"gene"}, {"-e", "gene"}, {"CDS@^..^+3"}, {"-F", "fasta", "3..12"}},
 	"extract":    {{"gene"}, {"-v", "gene"}, {"CDS"}, {"gene", "CDS"}, {"CDS", "gene"}, {"gene CDS"}, {"-v", "gene", "CDS"}, {"gene", "gene"}, {"misc_feature", "CDS", "gene"}, {"gene", "CDS", "misc_feature"}, {}, {"-v"}, {"-F", "fasta", "gene"}, {"3..12"}, {"-v", "3..12"}},
-	"infix":      {{"10", "{host.gb}"}, {"11", "{host.gb}"}, {"10", "{host2.gb}"}, {"-e", "10", "{host.gb}"}, {"-F", "fasta", "10", "{host.gb}"}},
-	"insert":     {{"10", "{guest.gb}"}, {"11", "{guest.gb}"}, {"10", "{guest2.gb}"}, {"10", "@ggttcc"}, {"10", "@ggttca"}, {"-e", "10", "{guest.gb}"}, {"-F", "fasta", "10", "{guest.gb}"}, {"gene", "{guest.fasta}"}},
+	"infix":      {{"10", "{host.gb}"}, {"11", "{host.gb}"}, {"10", "{host2.gb}"}, {"10", "{host3.gb}"}, {"-e", "10", "{host.gb}"}, {"-F", "fasta", "10", "{host.gb}"}},
+	"insert":     {{"10", "{guest.gb}"}, {"11", "{guest.gb}"}, {"10", "{guest2.gb}"}, {"10", "{guest3.gb}"}, {"10", "{guest.fasta}"}, {"10", "{guest2.fasta}"}, {"10", "@ggttcc"}, {"10", "@ggttca"}, {"-e", "10", "{guest.gb}"}, {"-F", "fasta", "10", "{guest.gb}"}, {"gene", "{guest.fasta}"}},
 	"join":       {{}, {"-c"}, {"-F", "fasta"}},
 	"pick":       {{"1"}, {"2"}, {"1,2"}, {"2,1"}, {"1-2"}, {"-f", "1"}, {"-f", "2"}, {"-F", "fasta", "1"}},
 	"query":      {{}, {"-n", "gene"}, {"-n", "product"}, {"-n", "gene", "-n", "product"}, {"-n", "product", "-n", "gene"}, {"-n", "gene product"}, {"-d", ","}, {"-d", ", "}, {"-t", "; "}, {"-t", ";"}, {"-H"}, {"--source"}, {"-I"}, {"-K"}, {"-L"}, {"--empty"}, {"--empty", "-n", "product"}},
